@@ -65,11 +65,35 @@ func allDigits(s string) bool {
 
 func pow2(k uint) *big.Int { return new(big.Int).Lsh(big.NewInt(1), k) }
 
+// splitPlusConst decomposes "(+ t c)" into (t, c).
+func splitPlusConst(t string) (string, *big.Int, bool) {
+	if strings.HasPrefix(t, "(+ ") {
+		if args, ok := splitCtor(t, "+"); ok && len(args) == 2 {
+			if c, isn := isNum(args[1]); isn {
+				return args[0], c, true
+			}
+		}
+	}
+	return t, big.NewInt(0), false
+}
+
 func tAdd(a, b string) string {
 	x, okx := isNum(a)
 	y, oky := isNum(b)
 	if okx && oky {
 		return numLit(new(big.Int).Add(x, y))
+	}
+	if okx && !oky {
+		a, b, x, y, okx, oky = b, a, y, x, oky, okx
+	}
+	if oky {
+		if base, c, ok := splitPlusConst(a); ok {
+			sum := new(big.Int).Add(c, y)
+			if sum.Sign() == 0 {
+				return base
+			}
+			return app("+", base, numLit(sum))
+		}
 	}
 	if okx && x.Sign() == 0 {
 		return b
@@ -91,6 +115,14 @@ func tSub(a, b string) string {
 	}
 	if a == b {
 		return "0"
+	}
+	if oky {
+		return tAdd(a, numLit(new(big.Int).Neg(y)))
+	}
+	ba, ca, _ := splitPlusConst(a)
+	bb, cb, _ := splitPlusConst(b)
+	if ba == bb {
+		return numLit(new(big.Int).Sub(ca, cb))
 	}
 	return app("-", a, b)
 }
@@ -292,9 +324,27 @@ func tIte(c, a, b string) string {
 
 func seqFn(sort, f string) string { return sort + "_" + f }
 
-func sLen(sort, s string) string         { return app(seqFn(sort, "len"), s) }
+func sLen(sort, s string) string {
+	if s == sEmpty(sort) {
+		return "0"
+	}
+	// len(sl(x,a,b)) = b-a (the slice bounds are established where the slice is built)
+	if args, ok := splitCtor(s, seqFn(sort, "sl")); ok && len(args) == 3 {
+		return tSub(args[2], args[1])
+	}
+	return app(seqFn(sort, "len"), s)
+}
 func sIdx(sort, s, i string) string      { return app(seqFn(sort, "idx"), s, i) }
-func sSl(sort, s, a, b string) string    { return app(seqFn(sort, "sl"), s, a, b) }
+func sSl(sort, s, a, b string) string {
+	// sl(sl(x,p,q),a,b) = sl(x,p+a,p+b)
+	if args, ok := splitCtor(s, seqFn(sort, "sl")); ok && len(args) == 3 {
+		return sSl(sort, args[0], tAdd(args[1], a), tAdd(args[1], b))
+	}
+	if a == b {
+		return sEmpty(sort)
+	}
+	return app(seqFn(sort, "sl"), s, a, b)
+}
 func sApp(sort, a, b string) string      { return app(seqFn(sort, "app"), a, b) }
 func sEmpty(sort string) string          { return seqFn(sort, "empty") }
 func sBuild(sort, s, v string) string    { return app(seqFn(sort, "build"), s, v) }
